@@ -4,7 +4,8 @@ AllDefaults == {"nodefault", "nodefault_unmapped", "nodefault_enum", "nodefault_
                 "id_int", "id_string", "list", "empty_list", "nested_list", "list_null_item", "object", "object_enum",
                 "object_list", "object_object", "list_of_objects", "custom_scalar",
                 "object_null_entry", "list_of_objects_null_entry", "object_nested_default",
-                "object_enum_keyword", "list_of_objects_enum_keyword"}
+                "object_enum_keyword", "list_of_objects_enum_keyword",
+                "list_null", "nested_list_null", "enum_list_null", "object_null", "list_single_value", "nested_list_single_value", "nested_list_flat_items"}
 AllNames == {"plain", "camel", "keyword", "reserved", "under"}
 NoDev == {}
 CaseSeq == SetToSeq({x \in Fields : ValidField(x)})
